@@ -5,7 +5,7 @@
    The 2^31 - 2^17 bound on each submitted stream is part of the theorem: with a 32-bit
    sequence space and unbounded duplication/delay the statement is false without it. *)
 From Elvis Require Import Model.Base Model.U32 Model.Tcb Model.TcpNet
-  Proofs.TcbSafetyDefs Proofs.TcbSafetyEx Proofs.TcbSafetyThms Proofs.TcbLiveSys Proofs.TcbLiveThm Proofs.TcbLiveEnd Proofs.TcbLiveWinRound Proofs.TcbLiveLossRound Proofs.TcbHeap Proofs.TcbLiveMidRound.
+  Proofs.TcbSafetyDefs Proofs.TcbSafetyEx Proofs.TcbSafetyThms Proofs.TcbLiveSys Proofs.TcbLiveThm Proofs.TcbLiveEnd Proofs.TcbLiveWinRound Proofs.TcbLiveLossRound Proofs.TcbHeap Proofs.TcbLiveMidRound Proofs.TcbLiveAckRound.
 From Coq Require Import Permutation.
 Local Open Scope Z_scope.
 
@@ -264,3 +264,26 @@ Theorem C01_liveness_one_loss_partial : forall (c : config) (s : sys) (a b : Z) 
   delivered s' (other x) = delivered s (other x) ++ bytes /\ delivered s' x = delivered s x.
 Proof. exact one_loss_explicit. Qed.
 Print Assumptions C01_liveness_one_loss_partial.
+
+(* lost ACKs: the whole flight is delivered in order ([LDeliver x 0], nseg times) and read by the
+   application, the receiver emits its ACKs (exactly nseg of them) and EVERY one of them is dropped.
+   In the next loss-free round the sender's retransmission timer fires and the whole flight is sent
+   again; for the receiver all of it is old data: it is not delivered a second time, each copy is
+   answered with a duplicate ACK, and the first of these - one cumulative ACK covering several
+   segments - empties the sender's queue.  After two rounds the system is quiescent; the delivered
+   history is the same as right after the first delivery (each byte exactly once).  (Partial w.r.t.
+   the full property: ALL ACKs of the round are lost; an arbitrary subset of ACKs lost, or data and
+   ACK loss mixed in the same round, is not covered.) *)
+Theorem C01_liveness_lost_acks_partial : forall (c : config) (s : sys) (a b : Z) (x : side) (bytes : list Z),
+  Quiescent c s a b -> 0 < zlen bytes <= 65535 ->
+  let s1 := run c s [LSend x bytes; LEmit x] in
+  let nseg := length (net_of s1 x) in
+  let s2 := run c s1 (repeat (LDeliver x 0) nseg ++ [LRecv (other x); LEmit (other x)]) in
+  let s' := run c s2 (repeat (LDrop (other x) 0) nseg ++ [LFair 2]) in
+  (net_of s2 x = [] /\ length (net_of s2 (other x)) = nseg /\
+   delivered s2 (other x) = delivered s (other x) ++ bytes) /\
+  (exists a' b', Quiescent c s' a' b') /\
+  sub_of s' x = sub_of s x ++ bytes /\ sub_of s' (other x) = sub_of s (other x) /\
+  delivered s' (other x) = delivered s (other x) ++ bytes /\ delivered s' x = delivered s x.
+Proof. exact lost_acks_explicit. Qed.
+Print Assumptions C01_liveness_lost_acks_partial.
